@@ -29,3 +29,24 @@ func TestRegress_RawTextTemplate(t *testing.T) {
 		}
 	}
 }
+
+// f0787a1: a NUL byte in svg or math content ends that content with an error; what follows is not a tag that was opened
+func TestRegress_ForeignContentError(t *testing.T) {
+	for _, src := range []string{"<svg a=b><g/>\x00 c=d>text<p>", "<p>x<svg>\x00</svg>y", "<math>\x00 e", "\ufeff<svg\t\x00"} {
+		l := html.NewLexer(parse.NewInputString(src))
+		open := false
+		for i := 0; i < 2*len(src)+8; i++ {
+			tt, data := l.Next()
+			switch tt {
+			case html.StartTagToken:
+				open = true
+			case html.StartTagCloseToken, html.StartTagVoidToken:
+				open = false
+			case html.AttributeToken:
+				if !open {
+					t.Errorf("%q: AttributeToken %q without a start tag", src, data)
+				}
+			}
+		}
+	}
+}
